@@ -1,6 +1,8 @@
 package checker
 
 import (
+	"github.com/jsightapi/jsight-schema-go-library/errors"
+	"github.com/jsightapi/jsight-schema-go-library/internal/lexeme"
 	"github.com/jsightapi/jsight-schema-go-library/notations/jschema/internal/schema"
 	"github.com/jsightapi/jsight-schema-go-library/notations/jschema/internal/schema/constraint"
 )
@@ -48,10 +50,23 @@ func (l *nodeCheckerListConstructor) appendNodeValidators(node schema.Node) {
 		l.list = make([]nodeChecker, 0, 1) // optimizing memory allocation
 	}
 
+	if node.Constraint(constraint.AnyConstraintType) != nil {
+		l.list = append(l.list, anyChecker{})
+		return
+	}
+
 	c, err := newNodeChecker(node)
 	if err != nil {
 		panic(err)
 	}
 
 	l.list = append(l.list, c)
+}
+
+// anyChecker the checker of a node of the type "any": such a node admits every
+// value, whatever its own EXAMPLE is (as the validator of such a node does).
+type anyChecker struct{}
+
+func (anyChecker) Check(lexeme.LexEvent) errors.Error {
+	return nil
 }
